@@ -147,6 +147,9 @@ static double function_eval(const double *x, params *p) {
 
 #define THIRD (0.3333333333333333333333)
 
+/* centers of very thin rectangles next to a bound can round one ulp past it */
+#define INBOX(v, i, p) ((v) < (p)->lb[i] ? (p)->lb[i] : ((v) > (p)->ub[i] ? (p)->ub[i] : (v)))
+
 #define EQUAL_SIDE_TOL 5e-2 /* tolerance to equate side sizes */
 
 /* divide rectangle idiv in the list p->rects */
@@ -175,9 +178,9 @@ static nlopt_result divide_rect(double *rdiv, params *p)
 	  for (i = 0; i < n; ++i) {
 	       if (wmax - w[i] <= wmax * EQUAL_SIDE_TOL) {
 		    double csave = c[i];
-		    c[i] = csave - w[i] * THIRD;
+		    c[i] = INBOX(csave - w[i] * THIRD, i, p);
 		    FUNCTION_EVAL(fv[2*i], c, p, 0);
-		    c[i] = csave + w[i] * THIRD;
+		    c[i] = INBOX(csave + w[i] * THIRD, i, p);
 		    FUNCTION_EVAL(fv[2*i+1], c, p, 0);
 		    c[i] = csave;
 	       }
@@ -199,6 +202,7 @@ static nlopt_result divide_rect(double *rdiv, params *p)
 		    ALLOC_RECT(rnew, L);
 		    memcpy(rnew, rdiv, sizeof(double) * L);
 		    rnew[3 + isort[i]] += w[isort[i]] * (2*k-1);
+		    rnew[3 + isort[i]] = INBOX(rnew[3 + isort[i]], isort[i], p);
 		    rnew[1] = fv[2*isort[i]+k];
 		    rnew[2] = p->age++;
 		    if (!nlopt_rb_tree_insert(&p->rtree, rnew)) {
@@ -232,6 +236,7 @@ static nlopt_result divide_rect(double *rdiv, params *p)
 	       ALLOC_RECT(rnew, L);
 	       memcpy(rnew, rdiv, sizeof(double) * L);
 	       rnew[3 + i] += w[i] * (2*k-1);
+	       rnew[3 + i] = INBOX(rnew[3 + i], i, p);
 	       FUNCTION_EVAL(rnew[1], rnew + 3, p, rnew);
 	       rnew[2] = p->age++;
 	       if (!nlopt_rb_tree_insert(&p->rtree, rnew)) {
